@@ -59,6 +59,7 @@ type registration struct {
 type invocation struct {
 	callID     requestID
 	callee     *wamp.Session
+	reg        *registration
 	canceled   bool
 	inProgress bool
 	// answered is set when the callee answered the call finally while the
@@ -707,18 +708,6 @@ func (d *dealer) syncMatchProcedure(procedure wamp.URI) (*registration, bool) {
 }
 
 func (d *dealer) syncCall(caller *wamp.Session, msg *wamp.Call) {
-	reg, ok := d.syncMatchProcedure(msg.Procedure)
-	if !ok || len(reg.callees) == 0 {
-		// If no registered procedure, send error.
-		d.trySend(caller, &wamp.Error{
-			Type:    msg.MessageType(),
-			Request: msg.Request,
-			Details: wamp.Dict{},
-			Error:   wamp.ErrNoSuchProcedure,
-		})
-		return
-	}
-
 	var callee *wamp.Session
 	var invocationID wamp.ID
 	var invk *invocation
@@ -729,7 +718,27 @@ func (d *dealer) syncCall(caller *wamp.Session, msg *wamp.Call) {
 		request: msg.Request,
 	}
 
+	var reg *registration
 	storedInvocationID, ok := d.invocationByCall[callReqID]
+	if ok {
+		// A further chunk of a progressive call belongs to the registration
+		// the call was routed to, even if the callee has unregistered the
+		// procedure while it is still serving the call.
+		reg = d.invocations[storedInvocationID].reg
+	} else {
+		var found bool
+		reg, found = d.syncMatchProcedure(msg.Procedure)
+		if !found || len(reg.callees) == 0 {
+			// If no registered procedure, send error.
+			d.trySend(caller, &wamp.Error{
+				Type:    msg.MessageType(),
+				Request: msg.Request,
+				Details: wamp.Dict{},
+				Error:   wamp.ErrNoSuchProcedure,
+			})
+			return
+		}
+	}
 	isInProgress, _ := msg.Options[wamp.OptProgress].(bool)
 	details := wamp.Dict{}
 	details[wamp.OptProgress] = isInProgress
@@ -771,6 +780,7 @@ func (d *dealer) syncCall(caller *wamp.Session, msg *wamp.Call) {
 		invk = &invocation{
 			callID:     reqID,
 			callee:     callee,
+			reg:        reg,
 			inProgress: isInProgress,
 			options:    msg.Options,
 		}
